@@ -147,12 +147,18 @@ func (x *Exec) inlinable(fn *ssa.Function) bool {
 }
 
 func (x *Exec) onStack(fr *Frame, fn *ssa.Function) bool {
+	n := 0
 	for f := fr; f != nil; f = f.parent {
 		if f.fn == fn {
-			return true
+			n++
 		}
 	}
-	return false
+	if x.tapeMode {
+		// nested structures re-enter Encoder.Struct / Decoder.Struct and the codec methods; the element tape
+		// is finite, so a small re-entrancy bound is enough (beyond it the call is havocked, which is sound)
+		return n >= 5
+	}
+	return n > 0
 }
 
 func (x *Exec) callStatic(fr *Frame, st *State, site ssa.Instruction, callee *ssa.Function, args []Val, bindings []Val, k Kont) {
